@@ -1,0 +1,67 @@
+//go:build verif
+
+package message
+
+// Verification hooks (build tag "verif" only; add-only).  Constructors over caller-supplied clients WITHOUT
+// background goroutines and thin exported wrappers around unexported methods, so that an external harness can
+// drive the real receiver / sender logic with scripted Kafka clients.  Nothing here changes existing behaviour.
+
+import (
+	"encoding/json"
+	"sync"
+
+	"github.com/confluentinc/confluent-kafka-go/kafka"
+
+	kafkainterface "github.com/digitalocean/firebolt/kafka"
+	"github.com/digitalocean/firebolt/node/kafkaproducer"
+)
+
+// NewKafkaReceiverV builds a KafkaMessageReceiver like NewKafkaReceiver + the metadata part of handleEvents do,
+// over the passed client, with the given partition count, without starting handleEvents.
+func NewKafkaReceiverV(consumer kafkainterface.MessageConsumer, topic string, partitionCount int, notifier NotificationFunc) *KafkaMessageReceiver {
+	return &KafkaMessageReceiver{
+		consumer:       consumer,
+		topic:          topic,
+		notifier:       notifier,
+		partitionCount: partitionCount,
+		initMutex:      sync.RWMutex{},
+		initBuffer:     make(map[string]*wireMessage),
+	}
+}
+
+// ProcessEventV exposes processEvent.
+func (r *KafkaMessageReceiver) ProcessEventV(ev kafka.Event) { r.processEvent(ev) }
+
+// BuildPartitionAssignmentsV exposes buildPartitionAssignments.
+func (r *KafkaMessageReceiver) BuildPartitionAssignmentsV(parts []kafka.PartitionMetadata) []kafka.TopicPartition {
+	return r.buildPartitionAssignments(parts)
+}
+
+// BuildConfigMapV exposes buildConfigMap.
+func (r *KafkaMessageReceiver) BuildConfigMapV(config map[string]string) (*kafka.ConfigMap, error) {
+	return r.buildConfigMap(config)
+}
+
+// DecodeWireV decodes a record value exactly as processMessage does (encoding/json into a wireMessage).
+func DecodeWireV(value []byte) (msg Message, ack bool, ok bool) {
+	wireMsg := &wireMessage{}
+	if err := json.Unmarshal(value, wireMsg); err != nil {
+		return Message{}, false, false
+	}
+	return wireMsg.Message, wireMsg.Acknowledged, true
+}
+
+// UniqueKeyV exposes uniqueKey.
+func UniqueKeyV(msg Message) string { return uniqueKey(msg) }
+
+// NewKafkaMessageSenderV builds a KafkaMessageSender like NewKafkaMessageSender does, over the passed producer node.
+func NewKafkaMessageSenderV(producer *kafkaproducer.KafkaProducer, topic string) Sender {
+	return KafkaMessageSender{producer: producer, topic: topic}
+}
+
+// SetSenderV installs s as the sender singleton returned by GetSender (nil unsets it, without Shutdown).
+func SetSenderV(s Sender) {
+	senderLock.Lock()
+	defer senderLock.Unlock()
+	senderSingleton = s
+}
